@@ -462,6 +462,9 @@ def item_clauses(run, ri):
             if _is_raise(res, "Value", 8):
                 msgs.append(f"until-future-refused: {where}: until={t} > now={now_before} answered ValueError")
                 continue
+            if any(k[1] in sent_sids and Fraction(k[3]) == t for k in pops[:-1]):
+                msgs.append(f"until-number-overrun: {where}: the call kept stepping after its sentinel had been processed (it answered {res})")
+                continue
             if res[0] == "raise":
                 tainted = True                  # an exception escaped from a step: the sentinel stays behind
                 if any(Fraction(k[3]) > t for k in pops):
@@ -487,12 +490,20 @@ def item_clauses(run, ri):
                 if not _is_raise(res, "Attribute", 10):
                     msgs.append(f"until-nonevent: {where}: answered {res}")
                 continue
+            if _is_raise(res, "Assert"):
+                msgs.append(f"run-assertion: {where}: run() raised its internal AssertionError (agenda empty, until-event triggered "
+                            f"but not processed)")
+                continue
             if b["processed"]:
                 want = ["stop", b["outcome"][1]] if b["outcome"][0] == "ok" else ["stop", ["exn"] + b["outcome"][1]]
                 if res != want:
                     msgs.append(f"until-processed-event-result: {where}: the event was already processed with {b['outcome']}, the call answered {res}")
                 if pops:
                     msgs.append(f"until-processed-event-stepped: {where}: the event was already processed, yet the call processed {len(pops)} entries")
+                continue
+            if any(k[1] == a["sid"] for k in pops[:-1]):
+                msgs.append(f"until-event-overrun: {where}: the call kept stepping after the until-event had been processed "
+                            f"(it answered {res})")
                 continue
             if res[0] == "stop":
                 if tainted:
